@@ -167,6 +167,9 @@ class MyPyAstVisitor:
             else:  # pragma: no cover
                 raise TypeError("Unexpected type while parsing generic type.")
 
+            # Only type variables are type parameters of the class, "Sequence[int]" has none
+            generic_types = [generic_type for generic_type in generic_types if isinstance(generic_type, mp_nodes.TypeVarExpr)]
+
             for generic_type in generic_types:
                 variance_type = mypy_variance_parser(generic_type.variance)
                 variance_values: sds_types.AbstractType | None = None
@@ -201,7 +204,8 @@ class MyPyAstVisitor:
             ):
                 inherits_from_exception = True
 
-            if hasattr(superclass, "fullname"):
+            # (a base expression the type checker cannot resolve, like "namespace.Base", has an empty name)
+            if getattr(superclass, "fullname", ""):
                 superclass_qname = superclass.fullname
                 superclass_name = superclass_qname.split(".")[-1]
 
@@ -421,14 +425,17 @@ class MyPyAstVisitor:
                         assignments.append(assignment)
 
             elif isinstance(parent, Enum):
+                # The names bound by the target; targets like "_lookup[key] = ..." bind none
                 names = []
-                if hasattr(lvalue, "items"):
-                    for item in lvalue.items:
-                        names.append(item.name)
-                else:
-                    if not hasattr(lvalue, "name"):  # pragma: no cover
-                        raise AttributeError("Expected lvalue to have attribtue 'name'.")
-                    names.append(lvalue.name)
+                targets = [lvalue]
+                while targets:
+                    target = targets.pop(0)
+                    if isinstance(target, mp_nodes.StarExpr):
+                        target = target.expr
+                    if isinstance(target, mp_nodes.TupleExpr | mp_nodes.ListExpr):
+                        targets = list(target.items) + targets
+                    elif isinstance(target, mp_nodes.NameExpr):
+                        names.append(target.name)
 
                 for name in names:
                     assignments.append(
@@ -1083,7 +1090,8 @@ class MyPyAstVisitor:
                 return_type=self.mypy_type_to_abstract_type(mypy_type.ret_type),
             )
         elif isinstance(mypy_type, mp_types.AnyType):
-            if mypy_type.type_of_any == mp_types.TypeOfAny.from_unimported_type:
+            # (a variable that is used as an annotation is "unimported", too, but names no import)
+            if mypy_type.type_of_any == mp_types.TypeOfAny.from_unimported_type and mypy_type.missing_import_name:
                 # If the Any type is generated b/c of from_unimported_type, then we can parse the type
                 # from the import information
                 missing_import_name = mypy_type.missing_import_name.split(".")[-1]  # type: ignore[union-attr]
